@@ -174,4 +174,37 @@ CHECKS = {
         level_text="For every generated (type, value) EncodedSize(&v) and EncodeObject(buf, nil, &v) with a buffer of size+64 are each called 64 times after two warm-ups; the Mallocs delta divided by 64 must be 0 (a non-zero result is re-measured once).",
         level_note="Escape analysis is toolchain dependent: decided for go1.23.5 only.",
     ),
+    "C06": dict(
+        test="TestC06",
+        quick=dict(procs=6, checks=250, timeout=900),
+        thorough=dict(procs=32, checks=1500, timeout=2400, race=True),
+        env={"GODEBUG": "clobberfree=1"},
+        rule="rapid draws a history of 8-18 steps: decode (random type without nocopy fields; messages with strings of 0..600 bytes, scalar lists of alignment 1/2/4/8 up to 90 elements so that cumulative sizes cross the 2048-byte block and single objects the 256-byte large-object threshold, pointer-bearing lists/maps), "
+             "clobber (overwrite an earlier input buffer with 0xA5), garbage (heap churn), gc (two forced collections under GODEBUG=clobberfree=1), drop; up to 6 decoded objects stay live; "
+             "non-trivial = (>=3 extents of >=2 alignments or a pointer-bearing backing array) and a GC after a buffer overwrite; distinct by hash(history, types, messages)",
+        technique="property-based testing (rapid), stateful: histories of decodes, buffer overwrites and forced GCs; extent oracle (alignment, pairwise disjointness across all live objects, no overlap with the input) from a reflect+unsafe walk, value-stability oracle after every step",
+        level_text="After every step of a generated history every live decoded object must still lift to the value it had when decoded (freed or unscanned memory would be clobbered by the collector), and all extents (pointees, slice arrays to capacity, string bytes, holder bytes) of all live objects must be aligned, pairwise disjoint and outside every input buffer. Thorough tier runs race-instrumented (checkptr).",
+        level_note="Map bucket memory is owned by the Go runtime and not walked; nocopy fields are excluded here (C14).",
+    ),
+    "C07": dict(
+        test="TestC07",
+        quick=dict(procs=8, checks=60, timeout=900),
+        thorough=dict(procs=32, checks=700, timeout=3000),
+        rule="rapid draws a pool of 6-16 types chosen to share scratch state (a base struct nested by pointer, by value in two map types of the same Go type, in a list; two types with the same required ids incl. id 64; holders; curated mutually recursive and defaulted named types; order shuffled so types are first used on their own or nested) "
+             "and a history of 6-24 calls: size/encode (by value or pointer, sufficient or short buffer), decode (well-formed, fresh or pre-filled destination), decodebad (truncated or corrupted inside a container), calls on an invalid definition; "
+             "non-trivial = a failed call followed by a successful one; distinct by hash(history, pool)",
+        technique="property-based testing (rapid), stateful/model-based: every call compared with the stateless reference model; failing calls and a 10% sample are re-executed first in a brand-new process and (n, error text, destination/output) compared",
+        level_text="Along every generated history each result must equal the stateless model's (so nothing of an earlier call can be in it); calls whose outcome the model leaves partly open - failed decodes (n, partial destination), short-buffer encodes - and a sample of the rest are additionally compared with the same call made first in a fresh process.",
+        level_note="The partial destination of a failed decode is compared between processes, not prescribed; up to 4 fresh-process comparisons per history.",
+    ),
+    "C08": dict(
+        test="TestC08",
+        quick=dict(procs=8, checks=40, timeout=900, race=True),
+        thorough=dict(procs=64, checks=300, timeout=3000, race=True),
+        rule="one evaluation = one barrier round in a race-instrumented worker: 2-16 registrar goroutines are released together onto the same batch of never-used types (2-6 fresh anonymous types, 1-3 wrappers nesting them by pointer/list/by-value map, 0-5 not-yet-used named types of the generated universe incl. mutually recursive ones), "
+             "0-16 steady goroutines meanwhile run size/encode/decode on types registered in earlier rounds; GOMAXPROCS 2/4/16 and harness-side Gosched patterns drawn per round; non-trivial = >=2 goroutines first-used the same fresh type with overlapping call intervals (logical clock) while a steady call was in flight; distinct by (seed, shard, round, registrars)",
+        technique="property-based testing (rapid) over sampled schedules under the Go race detector: barrier-released first use of fresh and mutually nested types, per-call comparison with the sequential reference model, race/fatal-error/deadlock detection",
+        level_text="Sampled interleavings only (the Go scheduler is not owned by the harness): every call's result must equal the sequential model's, the race detector must stay silent (a report is a violation whatever the timing of the conflicting accesses), no fatal 'concurrent map' error, no hang (120 s watchdog on a ~50 ms round).",
+        level_note="Ordering bugs without a data race are caught only if the window is hit; no yield hooks are added to frugal. The overlap labels use a logical clock and never decide pass/fail.",
+    ),
 }
